@@ -216,6 +216,24 @@ def handle (ch : String) (kv : KV) : String :=
           s!"lam={fmtFloats r.1.lam} lamisqrt={fmtFloats r.1.lamIsqrt} r={fmtFloats r.1.R} rinv={fmtFloats r.1.Rinv} rrt={fmtFloats r.2} hs={fmtFloats r.1.Hs}")
         (PsdTri.assembleScaling n l1 l2 u vt sig)
     | _, _, _, _, _, _ => "bad-request"
+  | "psd.update_scaling" =>
+    -- the whole `update_scaling`: prior state and LAPACK results (flags `c1 c2 svd`; factors when
+    -- all succeeded) from the request
+    match kv.nat "n", kv.floats "s", kv.floats "z", kv.nat "c1", kv.nat "c2", kv.nat "svd" with
+    | some n, some s, some z, some c1, some c2, some svd =>
+      match kv.floats "lam0", kv.floats "lamisqrt0", kv.floats "r0", kv.floats "rinv0", kv.floats "hs0" with
+      | some lam0, some li0, some r0, some ri0, some hs0 =>
+        let K : PsdTri.Cone Float := ⟨n, lam0, li0, r0, ri0, hs0⟩
+        let g (k : String) : Array Float := (kv.floats k).getD #[]
+        let lap : PsdTri.LapackOut Float :=
+          { chol1 := if c1 == 1 then some (g "l1") else none,
+            chol2 := if c2 == 1 then some (g "l2") else none,
+            svd := if svd == 1 then some (g "u", g "vt", g "sig") else none }
+        fmtM (fun (r : Bool × PsdTri.Cone Float) =>
+            s!"ok={fmtBool r.1} lam={fmtFloats r.2.lam} lamisqrt={fmtFloats r.2.lamIsqrt} r={fmtFloats r.2.R} rinv={fmtFloats r.2.Rinv} hs={fmtFloats r.2.Hs}")
+          (PsdTri.updateScaling K s z lap)
+      | _, _, _, _, _ => "bad-request"
+    | _, _, _, _, _, _ => "bad-request"
   | "psd.get_hs" =>
     -- Hs from the implementation's own RRᵀ (bit-exact: `skron` + `pack_triu`)
     match kv.nat "n", kv.floats "rrt", kv.nat "len" with
